@@ -19,6 +19,7 @@ func C18(p *load.Prog, r *report.Report) {
 		r.Undecided("C18.model", "layout", "", err.Error())
 		return
 	}
+	m.stateGuard(r, "C18", false, true)
 	fn := p.Method(p.Root, "Scalar", "Random")
 	if fn == nil {
 		r.Undecided("C18.anchor", "(*Scalar).Random", "", "method not found")
